@@ -38,6 +38,18 @@ static Plan generate(uint64_t seed, uint64_t run, const std::map<std::string, st
       gen_parse_args(r, in, base);
       h.push_back(make_canparse(in, base));
     }
+    if (r.chance(1, 6)) {
+      // URLPattern construction canonicalises hostname and pathname through internal URLs, i.e. under the limit too
+      Op op;
+      op.kind = OP_PATTERN;
+      op.args.assign(18, std::nullopt);
+      if (r.chance(2, 3)) op.args[3] = pickl(r, {"EXAMPLE.com", "ex\xc3\xa4mple.com", "example.com", "127.0.0.1", "a%41.com"});
+      if (r.chance(2, 3)) op.args[5] = pickl(r, {"/a/../b", "/x.y/:id", "/caf\xc3\xa9", "/plain", "/a b"});
+      if (r.chance(1, 3)) op.args[0] = pickl(r, {"https", "foo"});
+      if (r.chance(1, 4)) op.args[8] = "https://example.com/dir/file";
+      op.sub = uint8_t(1 << 1);
+      h.push_back(op);
+    }
     for (auto& op : h) {
       if (op.kind == OP_ORIGIN || op.kind == OP_CLEAR) continue;
       p.ops.emplace_back(0, op);
@@ -359,6 +371,7 @@ static void limit_hook(int site) {
   }
 }
 
+static bool g_limit_overwritten = false;  // a library call left a limit behind that nobody set
 template <class U>
 static std::string run_step_under(const Op& op, const Hist<U>& pre, uint32_t v1, int switch_at, uint32_t v2, int* reads) {
   Hist<U> h = pre;
@@ -367,8 +380,15 @@ static std::string run_step_under(const Op& op, const Hist<U>& pre, uint32_t v1,
   g_switch_at = switch_at;
   g_switch_to = v2;
   std::string t = exec_op(op, h).text;
+  const bool switched = switch_at > 0 && g_reads >= switch_at;
   if (reads) *reads = g_reads;
   g_switch_at = -1;
+  // Only set_max_input_length may change the limit: after the call it must be the value in force at the start, or the
+  // one the "other thread" stored meanwhile - a call that saves and restores the global would undo that store.
+  g_in_limit_hook = true;
+  const uint32_t now = ada::get_max_input_length();
+  g_in_limit_hook = false;
+  if (now != (switched ? v2 : v1)) g_limit_overwritten = true;
   return t;
 }
 // parse with base = two library calls: base under va, input under vb
@@ -390,10 +410,12 @@ static bool enumerate_limit_stores(const std::vector<Op>& ops, Result& res, Stat
     Hist<U> pre = real;
     ada::set_max_input_length(kUnlimited);
     StepObs R = exec_op(op, real);  // the history itself advances under no limit
-    if (op.kind != OP_PARSE && op.kind != OP_SET && op.kind != OP_CANPARSE) continue;
+    if (op.kind != OP_PARSE && op.kind != OP_SET && op.kind != OP_CANPARSE && op.kind != OP_PATTERN) continue;
     if (op.kind == OP_SET && !pre.cur) continue;
     // boundary set of limit values
     std::set<uint32_t> V = {0, kUnlimited};
+    if (op.kind == OP_PATTERN)  // URLPattern canonicalises through small internal URLs: limits around their sizes
+      for (uint32_t v : {14u, 15u, 16u, 17u, 18u, 19u, 20u, 40u}) V.insert(v);
     auto around = [&](size_t x) {
       for (long d = -1; d <= 1; d++)
         if (long(x) + d >= 0) V.insert(uint32_t(long(x) + d));
@@ -418,6 +440,14 @@ static bool enumerate_limit_stores(const std::vector<Op>& ops, Result& res, Stat
     std::vector<std::string> constant(vals.size());
     std::vector<int> nreads(vals.size());
     for (size_t a = 0; a < vals.size(); a++) constant[a] = run_step_under<U>(op, pre, vals[a], -1, 0, &nreads[a]);
+    if (g_limit_overwritten) {
+      g_limit_overwritten = false;
+      res.violation = true;
+      res.vclass = "limit-overwritten-by-call";
+      res.sig = std::string(kOpKindName[op.kind]) + ":" + tname;
+      res.detail = std::string(tname) + " step " + std::to_string(i) + " " + op.pretty().substr(0, 200) + ": the call changed the global length limit";
+      return false;
+    }
     for (size_t a = 0; a < vals.size(); a++) {
       for (size_t b = 0; b < vals.size(); b++) {
         if (a == b) continue;
@@ -427,6 +457,15 @@ static bool enumerate_limit_stores(const std::vector<Op>& ops, Result& res, Stat
           log += got;
           log += '\x1e';
           bool ok = got == constant[a] || got == constant[b];
+          if (g_limit_overwritten) {
+            g_limit_overwritten = false;
+            res.violation = true;
+            res.vclass = "limit-overwritten-by-call";
+            res.sig = std::string(kOpKindName[op.kind]) + ":" + tname;
+            res.detail = std::string(tname) + " step " + std::to_string(i) + " " + op.pretty().substr(0, 200) + ": another thread stored the limit " +
+                         std::to_string(vals[b]) + " before the call's read #" + std::to_string(k) + "; after the call the limit is neither that value nor unchanged - the call itself wrote the global limit";
+            return false;
+          }
           if (!ok && two_calls) ok = got == parse_mixed<U>(op, vals[a], vals[b]);
           if (got != constant[a]) st.add("limit_store_changed_outcome");
           if (!ok) {
